@@ -108,11 +108,13 @@ def cast(v, src, dst, side):
     if d == "float":
         return z3.fpToFP(RNE, v, z3.FPSort(dst[1], dst[2]))
     _, signed, bits = dst
-    # defined only when trunc(v) is representable
-    lo = -(2 ** (bits - 1)) if signed else 0
-    hi = 2 ** (bits - 1) - 1 if signed else 2 ** bits - 1
-    r = z3.fpToReal(z3.fpRoundToIntegral(RTZ, v))
-    side.append(z3.And(z3.Not(z3.fpIsNaN(v)), z3.Not(z3.fpIsInf(v)), r >= lo, r <= hi))
+    # defined only when trunc(v) is representable in the integer type; all comparisons stay in
+    # the source float format (bounds are powers of two, hence exact or +-oo in that format)
+    so = v.sort()
+    t = z3.fpRoundToIntegral(RTZ, v)
+    lo_c = z3.FPVal(-(2.0 ** (bits - 1)) if signed else 0.0, so)
+    hi_c = z3.FPVal(2.0 ** (bits - 1) if signed else 2.0 ** bits, so)
+    side.append(z3.And(z3.Not(z3.fpIsNaN(v)), z3.Not(z3.fpIsInf(v)), z3.fpGEQ(t, lo_c), z3.fpLT(t, hi_c)))
     return z3.fpToSBV(RTZ, v, z3.BitVecSort(bits)) if signed else z3.fpToUBV(RTZ, v, z3.BitVecSort(bits))
 
 
@@ -269,7 +271,7 @@ def decision_table(ir_opt, ir, tier, out):
     out["samples"].extend(samples)
     # reachability twins: pairs the function must reject are indeed lossy in my encoding
     twins_ok = 0
-    twins = [("FLOAT", "FLOAT16"), ("INT32", "INT8"), ("INT64", "DOUBLE"), ("DOUBLE", "FLOAT"), ("INT32", "FLOAT"), ("UINT8", "INT8")]
+    twins = [("FLOAT", "FLOAT16"), ("INT32", "INT8"), ("INT64", "DOUBLE"), ("DOUBLE", "FLOAT"), ("INT32", "FLOAT"), ("INT16", "INT8"), ("UINT8", "BOOL")]
     for a, b in twins:
         sdt, mdt = getattr(ir.DataType, a), getattr(ir.DataType, b)
         sc, mc = classify(sdt), classify(mdt)
